@@ -982,6 +982,20 @@ class SimSocket:
 
     def shutdown(self, how):
         s, t, p, o = self._o()
+        if o.kind == "listen" and o.obj.listening:
+            # Linux: shutdown() of the read side of a LISTENING socket takes it out of the listening state - for every process that
+            # shares the open file description (the descriptors themselves stay valid); connection attempts are refused from then on
+            if how in (_socket.SHUT_RD, _socket.SHUT_RDWR):
+                o.obj.listening = False
+                for st in o.obj.queue:
+                    peer = getattr(st, "peer", None)
+                    if peer is not None:
+                        peer.rst = True
+                        peer.eof = True
+                del o.obj.queue[:]
+                s.ev(p.name, "listener-shutdown", repr(o.obj.addr))
+            s.tick()
+            return
         if o.kind != "stream":
             raise OSError(errno.ENOTCONN, "Transport endpoint is not connected")
         st = o.obj
